@@ -40,7 +40,10 @@ RULE = ("case 0: exhaustive bends() over offsets {-2..2}^2 minus origin x 4 x 4 
         "free-space endpoints ConnDirAll; then direction-restricted scenes judged on libavoid's own visibility graph: "
         "scene-dirs-src (source restricted, target all; 1/3 of them the leave-away shape: single-direction source "
         "whose only turning line comes from a rectangle on the far side) and scene-dirs-dst (target restricted); "
-        "a scene is non-trivial if the routed path has at least one bend; a kernel chunk if "
+        "finally scene-multi: 2-4 connectors (all ConnDirAll), other connectors' free endpoints exactly collinear with "
+        "the source/target of the judged connector (gaps 20-200 in the 'tempting line' shape with an obstacle on the "
+        "target's column, penalties 10/50; gaps 1-14 in random scenes), judged against the Hanan optimum with true "
+        "geometric lengths; a scene is non-trivial if the routed path has at least one bend; a kernel chunk if "
         "it made at least one call")
 TRUSTED_BASE = ["Lean 4.33 kernel", "axioms: propext, Classical.choice, Quot.sound",
                 "cpp2lean translator + clang AST (bends() and direction helpers regenerated each run, bridge lemmas to the model; cross-checked by the correspondence)",
